@@ -531,7 +531,7 @@ fn shrink_dec(c: DecCase, sig: &str) -> DecCase {
     cur
 }
 
-fn decode_sweep(ctx: &Ctx, part: &str, rule: &str, mode: &'static str, a: u64, total: u64, batch: u64, exhaustive: bool) -> PartReport {
+pub fn decode_sweep(ctx: &Ctx, part: &str, rule: &str, mode: &'static str, a: u64, total: u64, batch: u64, exhaustive: bool) -> PartReport {
     let t = std::time::Instant::now();
     let next = AtomicU64::new(0);
     let stop = AtomicBool::new(false);
